@@ -145,10 +145,12 @@ func withByte(b []byte, pos int, v byte) []byte {
 func statusReqFrame() []byte { return frame(fixedSession, 0x04, enc(struct{ R uint32 }{0})) }
 
 func frameFamilies(w *world) []*Family {
-	sample := func() []byte { return frame(fixedSession, 0x05, enc(struct {
-		H    uint32
-		Hash [32]byte
-	}{3, w.hash("C")})) }
+	sample := func() []byte {
+		return frame(fixedSession, 0x05, enc(struct {
+			H    uint32
+			Hash [32]byte
+		}{3, w.hash("C")}))
+	}
 	var fams []*Family
 	add := func(name string, cost int, gen func(thorough bool, emit func(func() Case))) {
 		fams = append(fams, &Family{Name: "frame/" + name, Cost: cost, Gen: func(_ *world, th bool, emit func(func() Case)) { gen(th, emit) }})
@@ -163,9 +165,11 @@ func frameFamilies(w *world) []*Family {
 			s := s
 			for _, e := range ends {
 				e := e
-				emit(func() Case { return Case{Name: fmt.Sprintf("frame/valid/%s/then-%s", s.name, e.n), Run: func(m *meter) string {
-					return playFrames(m, e.e, frame(fixedSession, s.code, s.payload))
-				}} })
+				emit(func() Case {
+					return Case{Name: fmt.Sprintf("frame/valid/%s/then-%s", s.name, e.n), Run: func(m *meter) string {
+						return playFrames(m, e.e, frame(fixedSession, s.code, s.payload))
+					}}
+				})
 			}
 		}
 	})
@@ -179,9 +183,11 @@ func frameFamilies(w *world) []*Family {
 			c := c
 			for _, pl := range [][]byte{nil, {0xc0}, bytes.Repeat([]byte{0x80}, 40)} {
 				pl := pl
-				emit(func() Case { return Case{Name: fmt.Sprintf("frame/code/%08x/payload=%d", c, len(pl)), Run: func(m *meter) string {
-					return playFrames(m, io.EOF, frame(fixedSession, c, pl), statusReqFrame())
-				}} })
+				emit(func() Case {
+					return Case{Name: fmt.Sprintf("frame/code/%08x/payload=%d", c, len(pl)), Run: func(m *meter) string {
+						return playFrames(m, io.EOF, frame(fixedSession, c, pl), statusReqFrame())
+					}}
+				})
 			}
 		}
 	})
@@ -198,22 +204,24 @@ func frameFamilies(w *world) []*Family {
 			l := l
 			for _, kind := range []string{"zeros", "ff", "cut"} {
 				kind := kind
-				emit(func() Case { return Case{Name: fmt.Sprintf("frame/ctlen/len=%05d/%s", l, kind), Run: func(m *meter) string {
-					var body []byte
-					switch kind {
-					case "zeros":
-						body = make([]byte, l)
-					case "ff":
-						body = bytes.Repeat([]byte{0xff}, l)
-					default:
-						if l <= len(good) {
-							body = good[:l]
-						} else {
-							body = append(append([]byte{}, good...), make([]byte, l-len(good))...)
+				emit(func() Case {
+					return Case{Name: fmt.Sprintf("frame/ctlen/len=%05d/%s", l, kind), Run: func(m *meter) string {
+						var body []byte
+						switch kind {
+						case "zeros":
+							body = make([]byte, l)
+						case "ff":
+							body = bytes.Repeat([]byte{0xff}, l)
+						default:
+							if l <= len(good) {
+								body = good[:l]
+							} else {
+								body = append(append([]byte{}, good...), make([]byte, l-len(good))...)
+							}
 						}
-					}
-					return playFrames(m, io.EOF, packet(body), statusReqFrame())
-				}} })
+						return playFrames(m, io.EOF, packet(body), statusReqFrame())
+					}}
+				})
 			}
 		}
 	})
@@ -226,13 +234,15 @@ func frameFamilies(w *world) []*Family {
 				follow := follow
 				for _, e := range ends {
 					e := e
-					emit(func() Case { return Case{Name: fmt.Sprintf("frame/declared/%d/follow=%d/then-%s", d, follow, e.n), Run: func(m *meter) string {
-						body := cbc(fixedSession, pad(plainOf(0x04, enc(struct{ R uint32 }{0}))))
-						for len(body) < follow {
-							body = append(body, body...)
-						}
-						return playFrames(m, e.e, packetLen(d, body[:follow]))
-					}} })
+					emit(func() Case {
+						return Case{Name: fmt.Sprintf("frame/declared/%d/follow=%d/then-%s", d, follow, e.n), Run: func(m *meter) string {
+							body := cbc(fixedSession, pad(plainOf(0x04, enc(struct{ R uint32 }{0}))))
+							for len(body) < follow {
+								body = append(body, body...)
+							}
+							return playFrames(m, e.e, packetLen(d, body[:follow]))
+						}}
+					})
 				}
 			}
 		}
@@ -241,15 +251,17 @@ func frameFamilies(w *world) []*Family {
 			size := size
 			for _, valid := range []bool{false, true} {
 				valid := valid
-				emit(func() Case { return Case{Name: fmt.Sprintf("frame/declared/full=%d/valid=%v", size, valid), Run: func(m *meter) string {
-					var body []byte
-					if valid {
-						body = cbc(fixedSession, pad(plainOf(0x1f, make([]byte, size-4-1))))
-					} else {
-						body = make([]byte, size)
-					}
-					return playFrames(m, io.EOF, packet(body))
-				}} })
+				emit(func() Case {
+					return Case{Name: fmt.Sprintf("frame/declared/full=%d/valid=%v", size, valid), Run: func(m *meter) string {
+						var body []byte
+						if valid {
+							body = cbc(fixedSession, pad(plainOf(0x1f, make([]byte, size-4-1))))
+						} else {
+							body = make([]byte, size)
+						}
+						return playFrames(m, io.EOF, packet(body))
+					}}
+				})
 			}
 		}
 	})
@@ -261,9 +273,11 @@ func frameFamilies(w *world) []*Family {
 					continue
 				}
 				pos, v := pos, v
-				emit(func() Case { return Case{Name: fmt.Sprintf("frame/magic/pos=%d/val=%02x", pos, v), Run: func(m *meter) string {
-					return playFrames(m, io.EOF, withByte(fr, pos, byte(v)), statusReqFrame())
-				}} })
+				emit(func() Case {
+					return Case{Name: fmt.Sprintf("frame/magic/pos=%d/val=%02x", pos, v), Run: func(m *meter) string {
+						return playFrames(m, io.EOF, withByte(fr, pos, byte(v)), statusReqFrame())
+					}}
+				})
 			}
 		}
 	})
@@ -281,9 +295,11 @@ func frameFamilies(w *world) []*Family {
 			for pos := range fr {
 				for _, v := range byteVals(fr[pos], th) {
 					pos, v := pos, v
-					emit(func() Case { return Case{Name: fmt.Sprintf("frame/mut/%s/pos=%03d/val=%02x", s.name, pos, v), Run: func(m *meter) string {
-						return playFrames(m, errTimeout, withByte(fr, pos, v), statusReqFrame())
-					}} })
+					emit(func() Case {
+						return Case{Name: fmt.Sprintf("frame/mut/%s/pos=%03d/val=%02x", s.name, pos, v), Run: func(m *meter) string {
+							return playFrames(m, errTimeout, withByte(fr, pos, v), statusReqFrame())
+						}}
+					})
 				}
 			}
 		}
@@ -295,17 +311,19 @@ func frameFamilies(w *world) []*Family {
 			for v := 0; v < 256; v++ {
 				for _, fill := range []string{"same", "zero"} {
 					blocks, v, fill := blocks, v, fill
-					emit(func() Case { return Case{Name: fmt.Sprintf("frame/pad/blocks=%d/last=%02x/%s", blocks, v, fill), Run: func(m *meter) string {
-						pl := make([]byte, 16*blocks)
-						binary.BigEndian.PutUint32(pl, 0x04)
-						if fill == "same" {
-							for i := len(pl) - 1; i >= 0 && i >= len(pl)-v; i-- {
-								pl[i] = byte(v)
+					emit(func() Case {
+						return Case{Name: fmt.Sprintf("frame/pad/blocks=%d/last=%02x/%s", blocks, v, fill), Run: func(m *meter) string {
+							pl := make([]byte, 16*blocks)
+							binary.BigEndian.PutUint32(pl, 0x04)
+							if fill == "same" {
+								for i := len(pl) - 1; i >= 0 && i >= len(pl)-v; i-- {
+									pl[i] = byte(v)
+								}
 							}
-						}
-						pl[len(pl)-1] = byte(v)
-						return playFrames(m, io.EOF, packet(cbc(fixedSession, pl)), statusReqFrame())
-					}} })
+							pl[len(pl)-1] = byte(v)
+							return playFrames(m, io.EOF, packet(cbc(fixedSession, pl)), statusReqFrame())
+						}}
+					})
 				}
 			}
 		}
@@ -316,9 +334,11 @@ func frameFamilies(w *world) []*Family {
 		for l := 0; l <= 64; l++ {
 			for _, fill := range []byte{0x00, 0x04, 0xff} {
 				l, fill := l, fill
-				emit(func() Case { return Case{Name: fmt.Sprintf("frame/plainlen/len=%02d/fill=%02x", l, fill), Run: func(m *meter) string {
-					return playFrames(m, io.EOF, framePlain(fixedSession, bytes.Repeat([]byte{fill}, l)), statusReqFrame())
-				}} })
+				emit(func() Case {
+					return Case{Name: fmt.Sprintf("frame/plainlen/len=%02d/fill=%02x", l, fill), Run: func(m *meter) string {
+						return playFrames(m, io.EOF, framePlain(fixedSession, bytes.Repeat([]byte{fill}, l)), statusReqFrame())
+					}}
+				})
 			}
 		}
 	})
@@ -329,9 +349,11 @@ func frameFamilies(w *world) []*Family {
 			for pos := 0; pos < l; pos++ {
 				for v := 0; v < 256; v++ {
 					l, pos, v := l, pos, v
-					emit(func() Case { return Case{Name: fmt.Sprintf("frame/plain1/len=%d/pos=%d/val=%02x", l, pos, v), Run: func(m *meter) string {
-						return playFrames(m, io.EOF, framePlain(fixedSession, withByte(base, pos, byte(v))))
-					}} })
+					emit(func() Case {
+						return Case{Name: fmt.Sprintf("frame/plain1/len=%d/pos=%d/val=%02x", l, pos, v), Run: func(m *meter) string {
+							return playFrames(m, io.EOF, framePlain(fixedSession, withByte(base, pos, byte(v))))
+						}}
+					})
 				}
 			}
 		}
@@ -350,9 +372,11 @@ func frameFamilies(w *world) []*Family {
 			for pos := range pl {
 				for _, v := range boundaryVals(pl[pos], th) {
 					pos, v := pos, v
-					emit(func() Case { return Case{Name: fmt.Sprintf("frame/plain2/%s/pos=%03d/val=%02x", s.name, pos, v), Run: func(m *meter) string {
-						return playFrames(m, io.EOF, framePlain(fixedSession, withByte(pl, pos, v)))
-					}} })
+					emit(func() Case {
+						return Case{Name: fmt.Sprintf("frame/plain2/%s/pos=%03d/val=%02x", s.name, pos, v), Run: func(m *meter) string {
+							return playFrames(m, io.EOF, framePlain(fixedSession, withByte(pl, pos, v)))
+						}}
+					})
 				}
 			}
 		}
@@ -363,9 +387,11 @@ func frameFamilies(w *world) []*Family {
 		for cut := 0; cut <= len(fr); cut++ {
 			for _, e := range ends {
 				cut, e := cut, e
-				emit(func() Case { return Case{Name: fmt.Sprintf("frame/prefix/cut=%03d/then-%s", cut, e.n), Run: func(m *meter) string {
-					return playFrames(m, e.e, fr[:cut])
-				}} })
+				emit(func() Case {
+					return Case{Name: fmt.Sprintf("frame/prefix/cut=%03d/then-%s", cut, e.n), Run: func(m *meter) string {
+						return playFrames(m, e.e, fr[:cut])
+					}}
+				})
 			}
 		}
 	})
@@ -375,9 +401,11 @@ func frameFamilies(w *world) []*Family {
 		fr := sample()
 		for a := 0; a <= len(fr); a++ {
 			a := a
-			emit(func() Case { return Case{Name: fmt.Sprintf("frame/split/2/at=%03d", a), Run: func(m *meter) string {
-				return playFrames(m, io.EOF, fr[:a], fr[a:], statusReqFrame())
-			}} })
+			emit(func() Case {
+				return Case{Name: fmt.Sprintf("frame/split/2/at=%03d", a), Run: func(m *meter) string {
+					return playFrames(m, io.EOF, fr[:a], fr[a:], statusReqFrame())
+				}}
+			})
 		}
 		lim := 12
 		if th {
@@ -386,33 +414,43 @@ func frameFamilies(w *world) []*Family {
 		for a := 0; a <= lim; a++ {
 			for b := a; b <= lim; b++ {
 				a, b := a, b
-				emit(func() Case { return Case{Name: fmt.Sprintf("frame/split/3/at=%03d,%03d", a, b), Run: func(m *meter) string {
-					return playFrames(m, io.EOF, fr[:a], fr[a:b], fr[b:], statusReqFrame())
-				}} })
+				emit(func() Case {
+					return Case{Name: fmt.Sprintf("frame/split/3/at=%03d,%03d", a, b), Run: func(m *meter) string {
+						return playFrames(m, io.EOF, fr[:a], fr[a:b], fr[b:], statusReqFrame())
+					}}
+				})
 			}
 		}
-		emit(func() Case { return Case{Name: "frame/split/bytewise", Run: func(m *meter) string {
-			var ch [][]byte
-			for i := range fr {
-				ch = append(ch, fr[i:i+1])
-			}
-			return playFrames(m, io.EOF, ch...)
-		}} })
+		emit(func() Case {
+			return Case{Name: "frame/split/bytewise", Run: func(m *meter) string {
+				var ch [][]byte
+				for i := range fr {
+					ch = append(ch, fr[i:i+1])
+				}
+				return playFrames(m, io.EOF, ch...)
+			}}
+		})
 	})
 	add("seq", 2, func(th bool, emit func(func() Case)) {
 		// many frames back to back: more than the peer's message queue holds; heartbeats only; a bad
 		// frame after good ones
 		for _, n := range []int{2, 10, 11, 12, 13, 100, 1000} {
 			n := n
-			emit(func() Case { return Case{Name: fmt.Sprintf("frame/seq/status-requests=%d", n), Run: func(m *meter) string {
-				return playFrames(m, io.EOF, bytes.Repeat(statusReqFrame(), n))
-			}} })
-			emit(func() Case { return Case{Name: fmt.Sprintf("frame/seq/heartbeats=%d", n), Run: func(m *meter) string {
-				return playFrames(m, errTimeout, bytes.Repeat(frame(fixedSession, 0x01, nil), n))
-			}} })
-			emit(func() Case { return Case{Name: fmt.Sprintf("frame/seq/good=%d-then-bad", n), Run: func(m *meter) string {
-				return playFrames(m, io.EOF, bytes.Repeat(statusReqFrame(), n), packet(make([]byte, 7)), statusReqFrame())
-			}} })
+			emit(func() Case {
+				return Case{Name: fmt.Sprintf("frame/seq/status-requests=%d", n), Run: func(m *meter) string {
+					return playFrames(m, io.EOF, bytes.Repeat(statusReqFrame(), n))
+				}}
+			})
+			emit(func() Case {
+				return Case{Name: fmt.Sprintf("frame/seq/heartbeats=%d", n), Run: func(m *meter) string {
+					return playFrames(m, errTimeout, bytes.Repeat(frame(fixedSession, 0x01, nil), n))
+				}}
+			})
+			emit(func() Case {
+				return Case{Name: fmt.Sprintf("frame/seq/good=%d-then-bad", n), Run: func(m *meter) string {
+					return playFrames(m, io.EOF, bytes.Repeat(statusReqFrame(), n), packet(make([]byte, 7)), statusReqFrame())
+				}}
+			})
 		}
 	})
 	return fams
